@@ -6,6 +6,7 @@ import (
 	"bytes"
 	"context"
 	"encoding/base64"
+	"encoding/hex"
 	"errors"
 	"fmt"
 	"io"
@@ -118,44 +119,74 @@ func (p *c19Locked) RemoveAll() error {
 	return nil
 }
 
-// c19Reader yields `data`; optionally runs `mid` after the first half and/or fails after the first half.
+// c19Reader yields `data` in two halves; optionally runs `mid` after the first half, fails with a non-EOF
+// error once `failAt` bytes have been handed out (failAt < 0: never; 0 = before the first byte; len = instead
+// of the EOF), hands the last bytes out TOGETHER with the error/EOF (`together`), runs `atEOF` inside the Read
+// that reports EOF (everything has been consumed, the consumer has not returned yet).
 type c19Reader struct {
-	data []byte
-	pos  int
-	mid  func()
-	fail bool
+	data     []byte
+	pos      int
+	mid      func()
+	failAt   int
+	fails    bool
+	together bool
+	atEOF    func()
 }
 
 var errC19Reader = errors.New("c19: reader failed")
 
 func (p *c19Reader) Read(b []byte) (int, error) {
 	half := len(p.data) / 2
-	if p.pos >= half && (p.mid != nil || p.fail) {
-		if m := p.mid; m != nil {
-			p.mid = nil
-			m()
-		}
-		if p.fail {
+	if p.pos >= half && p.mid != nil {
+		m := p.mid
+		p.mid = nil
+		m()
+	}
+	limit := len(p.data)
+	if p.fails && p.failAt < limit {
+		limit = p.failAt
+	}
+	if p.pos >= limit {
+		if p.fails {
 			return 0, errC19Reader
 		}
-	}
-	if p.pos >= len(p.data) {
+		if m := p.atEOF; m != nil {
+			p.atEOF = nil
+			m()
+		}
 		return 0, io.EOF
 	}
-	end := len(p.data)
-	if p.pos < half {
+	end := limit
+	if p.pos < half && half < limit {
 		end = half
 	}
 	n := copy(b, p.data[p.pos:end])
 	p.pos += n
+	if p.together && p.pos >= limit {
+		if p.fails {
+			return n, errC19Reader
+		}
+		if m := p.atEOF; m != nil {
+			p.atEOF = nil
+			m()
+		}
+		return n, io.EOF
+	}
 	return n, nil
 }
+
+func (p *c19Reader) Close() error { return nil }
 
 // c19MemParts: an inner part store whose readers stay valid after a delete/overwrite (like an open file
 // descriptor or a transaction snapshot) and can run code when the first byte is read.
 type c19MemParts struct {
 	mu    sync.Mutex
 	parts map[partstore.PartId][]byte
+	// fault, when armed, makes the NEXT GetPart stream break after failAt bytes (then it disarms itself)
+	armed    bool
+	failAt   int
+	together bool
+	reads    int
 }
 
 func (s *c19MemParts) Start(ctx context.Context) error { return nil }
@@ -172,12 +203,17 @@ func (s *c19MemParts) PutPart(ctx context.Context, tx database.Tx, id partstore.
 }
 func (s *c19MemParts) GetPart(ctx context.Context, tx database.Tx, id partstore.PartId) (io.ReadCloser, error) {
 	s.mu.Lock()
+	defer s.mu.Unlock()
 	b, ok := s.parts[id]
-	s.mu.Unlock()
 	if !ok {
 		return nil, partstore.ErrPartNotFound
 	}
-	return io.NopCloser(bytes.NewReader(b)), nil
+	s.reads++
+	if s.armed {
+		s.armed = false
+		return &c19Reader{data: b, fails: true, failAt: s.failAt, together: s.together}, nil
+	}
+	return &c19Reader{data: b, failAt: -1, together: s.together}, nil
 }
 func (s *c19MemParts) GetPartIds(ctx context.Context, tx database.Tx) ([]partstore.PartId, error) {
 	return nil, nil
@@ -319,7 +355,11 @@ func (c *c19Seq) exec(line string) {
 			if t[3] == "stream" {
 				size = -1
 			}
-			if err := c.cache.Set(c19Key(k), &c19Reader{data: c19Val(255, n), fail: true}, size); err != nil {
+			at := n / 2
+			if len(t) > 4 {
+				fmt.Sscanf(t[4], "%d", &at)
+			}
+			if err := c.cache.Set(c19Key(k), &c19Reader{data: c19Val(255, n), fails: true, failAt: at, together: len(t) > 5 && t[5] == "tog"}, size); err != nil {
 				res = "res err"
 			} else {
 				res = "res ok"
@@ -388,7 +428,9 @@ func c19GenSeq(r *verifx.Rng, cfg c19Cfg, n int) []string {
 			id = id%250 + 1
 			ops = append(ops, fmt.Sprintf("set k%d %d %d %s", k, id, size(), mode))
 		case x < 50:
-			ops = append(ops, fmt.Sprintf("setfail k%d %d %s", k, 2+r.Intn(6), mode))
+			n := 2 + r.Intn(6)
+			at := verifx.Pick(r, []int{0, 1, n / 2, n - 1, n})
+			ops = append(ops, fmt.Sprintf("setfail k%d %d %s %d %s", k, n, mode, at, verifx.Pick(r, []string{"sep", "tog"})))
 		case x < 85:
 			ops = append(ops, fmt.Sprintf("get k%d", k))
 		default:
@@ -487,7 +529,7 @@ func runC19Sched(f *verifx.Flags, out *verifx.Out, k int, which int, pers string
 			}
 		}()
 		set := func(id, n int, mid func()) {
-			if err := cache.Set("k0", &c19Reader{data: c19Val(id, n), mid: mid}, -1); err == nil {
+			if err := cache.Set("k0", &c19Reader{data: c19Val(id, n), mid: mid, failAt: -1}, -1); err == nil {
 				out.Line("setdone k0 v%d.%d", id, n)
 			} else {
 				out.Line("seterr k0")
@@ -594,6 +636,243 @@ func runC19PartSched(f *verifx.Flags, out *verifx.Out, k int, which int) {
 		}
 	}()
 	out.End()
+}
+
+// ---------------------------------------------------------------- mode=partfault
+
+// Generated sequential histories on the real cache part store over an inner part store whose GetPart stream can
+// break after k bytes (k from the generator: 0, 1, the middle, len-1, len = instead of the EOF), with PutParts
+// whose body reader fails, and with callers that close a stream half-read. Lines (two per call):
+//   pput <i> <vid> <n>            res ok|err
+//   pputfail <i> <vid> <n> <at>   res ok|err
+//   pget <i> <k|-> <sep|tog>      res bytes <desc> | res notfound | res err <bytes handed out before the error>
+//   pgethalf <i>                  res half <desc of the half read> | res notfound | res err
+//   pdel <i>                      res ok|err
+//   pevict <i>                    res ok          (the cache entry of the part is evicted: cache.Remove)
+// followed by `inner <reads>`: how many inner GetPart streams were opened by that call (0 = served from the cache).
+func runC19PartFault(f *verifx.Flags, out *verifx.Out, k int, seed uint64, pers, policy string, limit int64, maxPart int64, ops []string) {
+	ctx := context.Background()
+	dir := filepath.Join(f.Scratch, fmt.Sprintf("c19-%d", k))
+	inner := &c19MemParts{parts: map[partstore.PartId][]byte{}}
+	cache := verifx.Must(cachepkg.NewGenericCache(c19NewPersistor(pers, dir), c19NewPolicy(c19Cfg{pers, policy, limit})))
+	ps := verifx.Must(cachestore.New(cache, inner, cachestore.Options{MaxPartSizeBytes: maxPart}))
+	ids := map[int]partstore.PartId{}
+	id := func(i int) partstore.PartId {
+		if _, ok := ids[i]; !ok {
+			ids[i] = *verifx.Must(partstore.NewRandomPartId())
+		}
+		return ids[i]
+	}
+	out.Case(k, seed)
+	out.Line("cfg mode=partfault persistor=%s policy=%s limit=%d maxpart=%d", pers, policy, limit, maxPart)
+	for _, op := range ops {
+		out.Line("%s", op)
+		t := strings.Fields(op)
+		var i, vid, n, at int
+		fmt.Sscanf(t[1], "%d", &i)
+		inner.mu.Lock()
+		inner.reads = 0
+		inner.armed = false
+		inner.mu.Unlock()
+		res := ""
+		func() {
+			defer func() {
+				if r := recover(); r != nil {
+					res = "res panic " + verifx.HexS(fmt.Sprint(r))
+				}
+			}()
+			switch t[0] {
+			case "pput", "pputfail":
+				fmt.Sscanf(t[2], "%d", &vid)
+				fmt.Sscanf(t[3], "%d", &n)
+				rd := &c19Reader{data: c19Val(vid, n), failAt: -1}
+				if t[0] == "pputfail" {
+					fmt.Sscanf(t[4], "%d", &at)
+					rd.fails, rd.failAt = true, at
+				}
+				if err := ps.PutPart(ctx, nil, id(i), rd); err != nil {
+					res = "res err"
+				} else {
+					res = "res ok"
+				}
+			case "pget", "pgethalf":
+				if t[0] == "pget" {
+					inner.mu.Lock()
+					if t[2] != "-" {
+						fmt.Sscanf(t[2], "%d", &at)
+						inner.armed, inner.failAt = true, at
+					}
+					inner.together = t[3] == "tog"
+					inner.mu.Unlock()
+				} else {
+					inner.mu.Lock()
+					inner.together = false
+					inner.mu.Unlock()
+				}
+				rc, err := ps.GetPart(ctx, nil, id(i))
+				if errors.Is(err, partstore.ErrPartNotFound) {
+					res = "res notfound"
+					return
+				}
+				if err != nil {
+					res = "res err 0"
+					return
+				}
+				if t[0] == "pgethalf" {
+					// one Read (the doubles hand out at most half of the value per Read), then Close
+					buf := make([]byte, 64)
+					m, rerr := rc.Read(buf)
+					_ = rc.Close()
+					if rerr == io.EOF {
+						res = "res halfeof " + c19Desc(buf[:m]) // an empty part: the single Read already saw the EOF
+					} else {
+						res = "res half " + c19Desc(buf[:m])
+					}
+					return
+				}
+				b, rerr := io.ReadAll(rc)
+				cerr := rc.Close()
+				if rerr != nil || cerr != nil {
+					res = fmt.Sprintf("res err %d", len(b))
+				} else {
+					res = "res bytes " + c19Desc(b)
+				}
+			case "pevict":
+				pid := id(i)
+				_ = cache.Remove("PART_" + hex.EncodeToString(pid.Bytes()))
+				res = "res ok"
+			case "pdel":
+				if err := ps.DeletePart(ctx, nil, id(i)); err != nil {
+					res = "res err"
+				} else {
+					res = "res ok"
+				}
+			default:
+				verifx.Fatalf("c19: unknown part op %q", op)
+			}
+		}()
+		inner.mu.Lock()
+		reads := inner.reads
+		inner.mu.Unlock()
+		out.Line("%s", res)
+		out.Line("inner %d", reads)
+	}
+	out.End()
+	_ = os.RemoveAll(dir)
+}
+
+func c19GenPartFault(r *verifx.Rng, n int, maxSize int) []string {
+	nid := 1 + r.Intn(3)
+	var ops []string
+	vid := 0
+	size := map[int]int{}
+	for j := 0; j < n; j++ {
+		i := r.Intn(nid)
+		switch x := r.Intn(100); {
+		case x < 22:
+			vid = vid%250 + 1
+			sz := 1 + r.Intn(maxSize)
+			if r.Chance(1, 12) {
+				sz = 0
+			}
+			size[i] = sz
+			ops = append(ops, fmt.Sprintf("pput %d %d %d", i, vid, sz))
+		case x < 27:
+			vid = vid%250 + 1
+			sz := 2 + r.Intn(maxSize)
+			ops = append(ops, fmt.Sprintf("pputfail %d %d %d %d", i, vid, sz, verifx.Pick(r, []int{0, 1, sz / 2, sz - 1, sz})))
+		case x < 50:
+			// a faulty source: breaks after k bytes
+			sz := size[i]
+			kk := verifx.Pick(r, []int{0, 1, sz / 2, sz - 1, sz, r.Intn(sz + 1)})
+			if kk < 0 {
+				kk = 0
+			}
+			ops = append(ops, fmt.Sprintf("pget %d %d %s", i, kk, verifx.Pick(r, []string{"sep", "tog"})))
+		case x < 68:
+			ops = append(ops, fmt.Sprintf("pget %d - %s", i, verifx.Pick(r, []string{"sep", "sep", "tog"})))
+		case x < 80:
+			ops = append(ops, fmt.Sprintf("pevict %d", i))
+		case x < 88:
+			ops = append(ops, fmt.Sprintf("pgethalf %d", i))
+		default:
+			delete(size, i)
+			ops = append(ops, fmt.Sprintf("pdel %d", i))
+		}
+	}
+	// closing sweep: healthy reads of everything
+	for i := 0; i < nid; i++ {
+		ops = append(ops, fmt.Sprintf("pget %d - sep", i), fmt.Sprintf("pget %d - sep", i))
+	}
+	return ops
+}
+
+func c19DirectedPartFault() [][]string {
+	return [][]string{
+		// a source that breaks in the middle of a cache-miss fill; then healthy reads
+		{"pput 0 1 32", "pevict 0", "pget 0 10 sep", "pget 0 - sep", "pget 0 - sep", "pevict 0", "pget 0 0 sep", "pget 0 - sep",
+			"pevict 0", "pget 0 31 tog", "pget 0 - sep", "pevict 0", "pget 0 32 sep", "pget 0 - tog", "pget 0 5 sep"},
+		{"pput 0 1 32", "pevict 0", "pgethalf 0", "pget 0 - sep", "pdel 0", "pget 0 - sep", "pputfail 0 2 10 5", "pget 0 - sep",
+			"pput 0 3 1", "pevict 0", "pget 0 0 tog", "pget 0 - sep", "pput 1 4 0", "pevict 1", "pget 1 0 sep", "pget 1 - sep"},
+	}
+}
+
+// Two Sets of ONE key overlapping on one GenericCache (filesystem and in-memory persistor).
+//   2: Set A has streamed half of its value; Set B (other bytes) runs completely; a Get; A finishes; a Get.
+//   3: Set A has streamed everything but has not returned; Set B (same bytes, other goroutine) has streamed half and
+//      waits; A returns; a Get; B finishes; a Get.
+// Lines: `setstart <k> v<id>.<n>`, `setdone <k> v<id>.<n>`, `got <k> <desc> <tag>`.
+func runC19SchedTwoSets(f *verifx.Flags, out *verifx.Out, k int, which int, pers string) {
+	dir := filepath.Join(f.Scratch, fmt.Sprintf("c19-%d", k))
+	cfg := c19Cfg{pers, "none", 0}
+	cache := verifx.Must(cachepkg.NewGenericCache(c19NewPersistor(pers, dir), c19NewPolicy(cfg)))
+	out.Case(k, uint64(k))
+	out.Line("%s sched=%d", cfg.line("sched"), which)
+	var mu sync.Mutex
+	line := func(format string, a ...any) {
+		mu.Lock()
+		out.Line(format, a...)
+		mu.Unlock()
+	}
+	set := func(id, n int, rd *c19Reader) {
+		line("setstart k0 v%d.%d", id, n)
+		rd.data, rd.failAt = c19Val(id, n), -1
+		if err := cache.Set("k0", rd, -1); err == nil {
+			line("setdone k0 v%d.%d", id, n)
+		} else {
+			line("seterr k0")
+		}
+	}
+	func() {
+		defer func() {
+			if r := recover(); r != nil {
+				line("panic %s", verifx.HexS(fmt.Sprint(r)))
+			}
+		}()
+		switch which {
+		case 2:
+			set(1, 16, &c19Reader{mid: func() {
+				set(2, 4, &c19Reader{})
+				line("got k0 %s after-B-during-A", c19GetDesc(cache, "k0"))
+			}})
+			line("got k0 %s after-both", c19GetDesc(cache, "k0"))
+		case 3:
+			bHalf, bGo, bDone := make(chan struct{}), make(chan struct{}), make(chan struct{})
+			set(1, 64, &c19Reader{atEOF: func() {
+				go func() {
+					defer close(bDone)
+					set(1, 64, &c19Reader{mid: func() { close(bHalf); <-bGo }})
+				}()
+				<-bHalf
+			}})
+			line("got k0 %s after-A-during-B", c19GetDesc(cache, "k0"))
+			close(bGo)
+			<-bDone
+			line("got k0 %s after-both", c19GetDesc(cache, "k0"))
+		}
+	}()
+	out.End()
+	_ = os.RemoveAll(dir)
 }
 
 // ---------------------------------------------------------------- mode=soak
@@ -776,6 +1055,23 @@ func runC19(args []string) {
 		runC19Child(f, out, k, verifx.CaseSeed(f.Seed, k))
 	}
 	k++
+	for _, s := range []struct {
+		which int
+		pers  string
+	}{{2, "fs"}, {2, "mem"}, {3, "fs"}, {3, "mem"}} {
+		if f.Wants(k) {
+			runC19SchedTwoSets(f, out, k, s.which, s.pers)
+		}
+		k++
+	}
+	for _, d := range c19DirectedPartFault() {
+		for _, pers := range []string{"locked", "fs"} {
+			if f.Wants(k) {
+				runC19PartFault(f, out, k, uint64(k), pers, "none", 0, 0, d)
+			}
+			k++
+		}
+	}
 	cfgs := []c19Cfg{
 		{"mem", "lfusize", 10}, {"mem", "lfukeys", 2}, {"mem", "lfusize", 24}, {"mem", "lfukeys", 1}, {"mem", "lfukeys", 3},
 		{"mem", "none", 0}, {"mem", "lfusize", 7}, {"fs", "lfusize", 10}, {"mem", "lfukeys", 4}, {"mem", "lfusize", 16},
@@ -787,7 +1083,21 @@ func runC19(args []string) {
 	for i := 0; i < f.Cases; i++ {
 		if f.Wants(k) {
 			seed := verifx.CaseSeed(f.Seed, k)
-			if i < nsoak {
+			if i >= nsoak && i%6 == 1 {
+				r := verifx.NewRng(seed)
+				pers := verifx.Pick(r, []string{"locked", "fs", "mem"})
+				maxPart, maxSize := int64(0), 40
+				pol, lim := "none", int64(0)
+				switch r.Intn(4) {
+				case 0:
+					maxPart = 20 // parts of 21..40 bytes are never cached
+				case 1:
+					pol, lim = "lfusize", 100
+				case 2:
+					pol, lim = "lfukeys", 2
+				}
+				runC19PartFault(f, out, k, seed, pers, pol, lim, maxPart, c19GenPartFault(r, 6+r.Intn(20), maxSize))
+			} else if i < nsoak {
 				pers := "locked"
 				if i%2 == 1 {
 					pers = "fs"
